@@ -50,15 +50,16 @@ INVARIANT SelfCandidate
 INVARIANT ResolvableUnique
 INVARIANT Nesting
 INVARIANT PreOrder
+INVARIANT Statements
 INVARIANT Emit
 CHECK_DEADLOCK FALSE
 """
 TIERS = {
     'quick': dict(layout=dict(budget=3, maxbody=5, maxdepth=3, units='"s4", "s2", "t1"',
-                              strkinds='"plain", "raw", "bytes", "f"'),
+                              strkinds='"plain", "raw", "bytes", "f", "rf"'),
                   lam=dict(maxl=2, sigs3='"x"'), tlc_workers=3, procs=6),
     'thorough': dict(layout=dict(budget=4, maxbody=5, maxdepth=3, units='"s4", "s2", "t1", "t2"',
-                                 strkinds='"plain", "raw", "bytes", "f", "rb"'),
+                                 strkinds='"plain", "raw", "bytes", "f", "rb", "rf"'),
                      lam=dict(maxl=3, sigs3='"x", "y", "po", "xd"'), tlc_workers=4, procs=8),
 }
 # every line kind / attribute the specification can write must occur in the enumeration (vacuity)
@@ -168,8 +169,10 @@ def check_lambdas(rep, recs, procs):
     rep.validated(nobj)
     rep.set('lambda_configurations', len(by_key))
     rep.set('lambda_outcomes', dict(tally))
-    if not tally.get('unsupported/found-or-unsupported') or not tally.get('found/found'):
-        raise common.MachineryError('vacuity: no ambiguous / no resolvable lambda configuration was exercised')
+    exps = {e for r in recs for e in r['exp']}
+    if exps != {'found', 'found-or-unsupported'} or not any('semi' in r['sep'] for r in recs):
+        raise common.MachineryError('vacuity: LambdaSelect.tla must produce resolvable and ambiguous lambdas and '
+                                    'several statements on one line (got %s)' % sorted(exps))
     cl = M.Classifier(verdicts, by_key)
     for key, i, (rawsig, what), o in found:
         sig, m = cl.signature(key, i)
